@@ -38,6 +38,16 @@ fn grammar_text(id: &str) -> Option<&'static str> {
             other => grammar_text(other),
         };
     }
+    // fourth set: the texts differ in nothing but the white space after the last token - a final comment with and
+    // without its newline (without it the text is no grammar), trailing blank lines
+    if let Some(rest) = id.strip_prefix("ws:") {
+        return match rest {
+            "g1" => Some("@export\nA = 'a' [x:B];\nB = 'b';\n# the end\n"),
+            "g2" => Some("@export\nA = 'a' [x:B];\nB = 'b';\n# the end\n\n \t\n"),
+            "bad_syn" => Some("@export\nA = 'a' [x:B];\nB = 'b';\n# the end"),
+            other => grammar_text(other),
+        };
+    }
     match id {
         "g1" => Some("@export\nA = 'a' [x:B];\nB = 'b';\n"),
         "g2" => Some("@export\nA = {x:B | y:C};\nB = 'b';\n@string\nC = 'c' char;\n"),
@@ -62,6 +72,29 @@ fn prefix_text(id: &str, wide: bool) -> &'static str {
         "pq" => "// p q",
         "u" => "use  std::fmt::Debug  as  _;",
         _ => panic!("prefix id"),
+    }
+}
+
+/// CRC-32/ISO-HDLC of the bytes of the grammar file, computed here (bit by bit) and not by the library: the header
+/// of a destination says which grammar file it was compiled from
+fn crc32(data: &[u8]) -> u32 {
+    let mut crc = 0xFFFF_FFFFu32;
+    for b in data {
+        crc ^= *b as u32;
+        for _ in 0..8 {
+            crc = if crc & 1 == 1 { (crc >> 1) ^ 0xEDB8_8320 } else { crc >> 1 };
+        }
+    }
+    !crc
+}
+
+fn names_grammar_file(dest: &Option<Vec<u8>>, src: &str) -> bool {
+    match (dest, grammar_text(src)) {
+        (Some(d), Some(t)) => {
+            let line = format!("// CRC-32/ISO-HDLC of the grammar file: {:08x}\n", crc32(t.as_bytes()));
+            d.windows(line.len()).any(|w| w == line.as_bytes())
+        }
+        _ => false,
     }
 }
 
@@ -169,6 +202,10 @@ fn main() {
         };
         // every grammar text is moved into place with a modification time OLDER than any destination's (a restored
         // backup, `cp -p`, an archive extraction): what is current is decided by content, not by time stamps
+        let (mode, ws) = match mode.strip_suffix("+ws") {
+            Some(m) => (m, true),
+            None => (mode, false),
+        };
         let (mode, oldsrc) = match mode.strip_suffix("+oldsrc") {
             Some(m) => (m, true),
             None => (mode, false),
@@ -196,7 +233,7 @@ fn main() {
             std::fs::write(dir.join("src").join("gram.ebnf"), "@export\nOther = 'o';\n").unwrap();
             std::fs::write(dir.join("src").join("gram.mar.ebnf"), "@export\nOther2 = 'p';\n").unwrap();
         }
-        let set = if crlf { "crlf:" } else if mode == "dest" { "tail:" } else { "" };
+        let set = if crlf { "crlf:" } else if ws { "ws:" } else if mode == "dest" { "tail:" } else { "" };
         let mut src = format!("{set}g1");
         if steps.starts_with("i:missing") {
             src = "missing".into();
@@ -277,7 +314,7 @@ fn main() {
                     Ok(t) => before.is_some() && t != old,
                     Err(_) => false,
                 };
-                let fresh = after.is_some() && after == exp;
+                let fresh = after.is_some() && after == exp && names_grammar_file(&after, &src);
                 let same = after == before;
                 if ok && after != before {
                     dest_prefix = prefix.clone();
